@@ -138,6 +138,9 @@ type target struct {
 	OutParams []string
 	// ErrSentinel: package-level error the file tests with errors.Is -> the gerr class standing for it IN THIS FILE
 	ErrSentinel map[string]string
+	// Hash2Funcs: helpers of the file that compute Keccak-256 of the concatenation of their two hash arguments through a hasher
+	// object (calculateGER): rendered as hash2, like crypto.Keccak256Hash (that they do is checked byte for byte by the correspondence)
+	Hash2Funcs []string
 	// SynthStructs: records for types of other modules, declared here by the fields the file reads (integers only)
 	SynthStructs map[string][]string
 	// DropCalls: methods of the context receiver whose call statements are dropped (logging helpers)
@@ -284,6 +287,13 @@ var targets = []target{
 			"CertificateBuildParams.IsARetry":        {Rets: []ty{{k: kBool}}, RecvOpt: true},
 		},
 		Funcs: []string{"baseFlow.limitCertSize", "baseFlow.getNewLocalExitRoot", "baseFlow.verifyRetryCertStartingBlock"}},
+	{File: "aggsender/flows/flow_base.go", Out: "GenVerifyClaims.v",
+		Module: "aggsender/flows/flow_base.go (verifyClaimGERs: every claim's global exit root is the hash of its mainnet and rollup exit roots)",
+		Hash:   true, Ctx: "baseFlow", Hash2Funcs: []string{"calculateGER"},
+		Structs: []string{"Claim"}, StructsFrom: map[string]string{"Claim": "bridgesync/processor.go"},
+		StructFields: map[string][]string{"Claim": {"MainnetExitRoot", "RollupExitRoot", "GlobalExitRoot"}},
+		TypeAlias:    map[string]string{"bridgesync.Claim": "Claim"},
+		Funcs:        []string{"baseFlow.verifyClaimGERs"}},
 	{File: "aggsender/flows/flow_base.go", Out: "GenGetParams.v",
 		Module: "aggsender/flows/flow_base.go (GetCertificateBuildParamsInternal: which certificate the flows set out to build), on top of Gen/GenBuildParams.v",
 		IntLit: true, Hash: true, Ctx: "baseFlow", Imports: []string{"Gen.GenBuildParams"}, DropParams: []string{"ctx"},
@@ -1049,6 +1059,15 @@ func (t *tr) call(v *ast.CallExpr, en *env) (string, ty) {
 	var args []string
 	switch f := v.Fun.(type) {
 	case *ast.Ident:
+		for _, hf := range t.tg.Hash2Funcs { // a helper of the file that is Keccak-256 of its two hash arguments, concatenated
+			if hf == f.Name && len(v.Args) == 2 {
+				a, at := t.expr(v.Args[0], en)
+				b, bt := t.expr(v.Args[1], en)
+				if at.k == kHash && bt.k == kHash {
+					return "(hash2 " + a + " " + b + ")", ty{k: kHash}
+				}
+			}
+		}
 		if _, ok := t.funcs[f.Name]; !ok {
 			t.fail(v, "call of %s (not a translated function)", f.Name)
 		}
@@ -1709,10 +1728,7 @@ func (t *tr) block(list []ast.Stmt, en *env, tail string, ind string) string {
 			t.fail(v, "range over a non-slice")
 			return "?"
 		}
-		if hasReturn(v.Body.List) {
-			t.fail(v, "return inside a range loop")
-			return "?"
-		}
+		hasRet := hasReturn(v.Body.List)
 		iv := v.Value.(*ast.Ident).Name
 		acc := map[string]bool{}
 		assigned(v.Body.List, acc)
@@ -1723,20 +1739,31 @@ func (t *tr) block(list []ast.Stmt, en *env, tail string, ind string) string {
 			}
 		}
 		sort.Strings(names)
-		if len(names) == 0 {
+		if len(names) == 0 && !hasRet {
 			t.fail(v, "loop without effect on the translated state")
 			return "?"
 		}
-		tup, pat := names[0], names[0]
+		tup, pat := "tt", "tt" // a loop that only returns early carries nothing
+		if len(names) == 1 {
+			tup, pat = names[0], names[0]
+		}
 		if len(names) > 1 {
 			tup = "(" + strings.Join(names, ", ") + ")"
 			pat = "'" + tup
 		}
 		ben := en.clone()
 		ben.vars[iv] = xt.sub[0]
-		ben.inLoop, ben.loopTup, ben.loopRet = true, tup, false
-		body := t.block(v.Body.List, ben, tup, ind+"    ")
-		return "let " + pat + " :=\n" + ind + "  fold_left (fun " + pat + " " + iv + " =>\n" + ind + "    " + body + ")\n" + ind + "  " + xs + " " + tup + " in\n" + ind + t.block(rest, en, tail, ind)
+		ben.inLoop, ben.loopTup, ben.loopRet = true, tup, hasRet
+		if !hasRet {
+			body := t.block(v.Body.List, ben, tup, ind+"    ")
+			return "let " + pat + " :=\n" + ind + "  fold_left (fun " + pat + " " + iv + " =>\n" + ind + "    " + body + ")\n" + ind + "  " + xs + " " + tup + " in\n" + ind + t.block(rest, en, tail, ind)
+		}
+		// an early `return` inside the loop: the accumulator carries `option result`; once it is set the remaining elements are skipped
+		body := t.block(v.Body.List, ben, t.loopTail(ben, ""), ind+"    ")
+		loop := "fold_left (fun '(" + tup + ", ret__) " + iv + " =>\n" + ind + "    match ret__ with Some _ => (" + tup + ", ret__) | None =>\n" + ind + "    " +
+			body + "\n" + ind + "    end)\n" + ind + "  " + xs + " (" + tup + ", None)"
+		return "let '(" + tup + ", ret__) :=\n" + ind + "  " + loop + " in\n" + ind + "match ret__ with Some r__ => r__ | None =>\n" + ind +
+			t.block(rest, en, tail, ind) + "\n" + ind + "end"
 	case *ast.SwitchStmt: // switch tag { case a: .. case b: .. default: .. } = the if / else-if chain, cases in source order
 		if v.Init != nil || v.Tag == nil {
 			t.fail(v, "switch without a tag or with an init statement")
